@@ -1,4 +1,5 @@
 import Uft.Lemmas.DirGuard
+import Uft.Gen.DirCallers
 /-
 C20 — Recording never destroys data that is not a uftrace data directory.
 Property theorems only (helpers are in Lemmas/DirGuard.lean).
@@ -235,5 +236,202 @@ example : canRemove (fsRot.get "DIR") = true ∧ canRemove (fsRot.get "DIR.old")
 
 /-- non-vacuity of `c20_foreign_old_untouched` -/
 example : Foreign (.cons "DIR.old" (.file [1]) fsRot) "DIR.old" := by decide
+
+/-! ### Every entry point (commands that create or remove a data directory) -/
+
+theorem ne_append_old (s : String) : s ≠ s ++ ".old" := by
+  intro h
+  have := congrArg String.length h
+  simp [String.length_append] at this
+
+theorem foreign_congr {fs fs' : Ents} {x : String} (h : fs'.get x = fs.get x) : Foreign fs' x ↔ Foreign fs x := by
+  simp [Foreign, h]
+
+theorem removeDir_get_other (e : Env) (fs : Ents) {n x : String} (h : x ≠ n) :
+    (removeDir e fs n).2.get x = fs.get x := by
+  simp only [removeDir]
+  split
+  · split <;> simp [get_erase_ne _ h, get_set_ne _ _ h]
+  · rfl
+
+/-- `create_directory(d)` (current code), seen from a name `x` that is foreign before the call:
+    whatever the result, `x` keeps its content -/
+theorem createDirectory_keeps_foreign (e : Env) (fs : Ents) (d x : String) (hx : Foreign fs x) :
+    (createDirectory e fs d (d ++ ".old")).fs.get x = fs.get x := by
+  by_cases h1 : x = d
+  · subst h1
+    rw [(c20_foreign_untouched e fs x (x ++ ".old") hx).1]
+  · by_cases h2 : x = d ++ ".old"
+    · subst h2
+      exact (c20_foreign_old_untouched e fs d (d ++ ".old") (ne_append_old d) hx).1
+    · exact c20_others_untouched true e fs d (d ++ ".old") x h1 h2
+
+/-- one event keeps the invariant: the names that were foreign at the start still hold what they
+    held, and no owned path names one of them -/
+theorem stepEv_inv (ρ : String → String) (filled : String → Ents) (fs0 : Ents) (owned : List String)
+    (st st' : Env × Ents) (ev : DEv)
+    (hI : ∀ x, Foreign fs0 x → st.2.get x = fs0.get x)
+    (hO : ∀ p ∈ owned, ¬ Foreign fs0 (ρ p))
+    (hg : guardedFrom owned [ev] = true)
+    (hs : stepEv ρ filled st ev = some st') :
+    (∀ x, Foreign fs0 x → st'.2.get x = fs0.get x) ∧
+    (∀ p ∈ (match ev with | .fresh q => q :: owned | .createOk q => q :: owned | _ => owned),
+        ¬ Foreign fs0 (ρ p)) := by
+  cases ev with
+  | fresh p =>
+    simp only [stepEv] at hs
+    split at hs
+    · rename_i hn
+      cases hs
+      refine ⟨hI, ?_⟩
+      intro q hq
+      simp only [List.mem_cons] at hq
+      rcases hq with rfl | hq
+      · intro hf
+        have := hI _ hf
+        rw [this] at hn
+        simp [Foreign] at hf
+        cases hg0 : fs0.get (ρ q) <;> simp_all
+      · exact hO q hq
+    · cases hs
+  | createOk p =>
+    simp only [stepEv] at hs
+    split at hs
+    · rename_i hok
+      cases hs
+      have hnf : ¬ Foreign fs0 (ρ p) := by
+        intro hf
+        have hf' : Foreign st.2 (ρ p) := (foreign_congr (hI _ hf)).2 hf
+        have := (c20_foreign_untouched st.1 st.2 (ρ p) (ρ p ++ ".old") hf').2
+        simp [this] at hok
+      refine ⟨?_, ?_⟩
+      · intro x hx
+        have hne : x ≠ ρ p := fun h => hnf (h ▸ hx)
+        have hx' : Foreign st.2 x := (foreign_congr (hI _ hx)).2 hx
+        simp only
+        rw [get_set_ne _ _ hne, createDirectory_keeps_foreign st.1 st.2 (ρ p) x hx', hI x hx]
+      · intro q hq
+        simp only [List.mem_cons] at hq
+        rcases hq with rfl | hq
+        · exact hnf
+        · exact hO q hq
+    · cases hs
+  | createFail p =>
+    simp only [stepEv] at hs
+    split at hs
+    · cases hs
+    · cases hs
+      refine ⟨?_, hO⟩
+      intro x hx
+      have hx' : Foreign st.2 x := (foreign_congr (hI _ hx)).2 hx
+      simp only
+      rw [createDirectory_keeps_foreign st.1 st.2 (ρ p) x hx', hI x hx]
+  | remove p =>
+    simp only [stepEv, Option.some.injEq] at hs
+    subst hs
+    have hp : p ∈ owned := by
+      simp only [guardedFrom, Bool.and_true, List.contains_iff_mem] at hg
+      exact hg
+    refine ⟨?_, hO⟩
+    intro x hx
+    have hne : x ≠ ρ p := fun h => hO p hp (h ▸ hx)
+    rw [removeDir_get_other _ _ hne, hI x hx]
+
+theorem guarded_trace_inv (ρ : String → String) (filled : String → Ents) (fs0 : Ents) :
+    ∀ (tr : List DEv) (owned : List String) (st st' : Env × Ents),
+      (∀ x, Foreign fs0 x → st.2.get x = fs0.get x) →
+      (∀ p ∈ owned, ¬ Foreign fs0 (ρ p)) →
+      guardedFrom owned tr = true → execTrace ρ filled st tr = some st' →
+      ∀ x, Foreign fs0 x → st'.2.get x = fs0.get x
+  | [], _, st, st', hI, _, _, hs => by
+    simp only [execTrace, Option.some.injEq] at hs
+    subst hs; exact hI
+  | ev :: r, owned, st, st', hI, hO, hg, hs => by
+    simp only [execTrace] at hs
+    cases h1 : stepEv ρ filled st ev with
+    | none => simp [h1] at hs
+    | some st2 =>
+      simp only [h1] at hs
+      have hg1 : guardedFrom owned [ev] = true := by
+        cases ev <;> simp_all [guardedFrom]
+      have hstep := stepEv_inv ρ filled fs0 owned st st2 ev hI hO hg1 h1
+      cases ev with
+      | fresh p => exact guarded_trace_inv ρ filled fs0 r (p :: owned) st2 st' hstep.1 hstep.2 (by simpa [guardedFrom] using hg) hs
+      | createOk p => exact guarded_trace_inv ρ filled fs0 r (p :: owned) st2 st' hstep.1 hstep.2 (by simpa [guardedFrom] using hg) hs
+      | createFail p => exact guarded_trace_inv ρ filled fs0 r owned st2 st' hstep.1 hstep.2 (by simpa [guardedFrom] using hg) hs
+      | remove p =>
+        have : guardedFrom owned r = true := by
+          simp only [guardedFrom, Bool.and_eq_true] at hg
+          exact hg.2
+        exact guarded_trace_inv ρ filled fs0 r owned st2 st' hstep.1 hstep.2 this hs
+
+/-- C20 for a whole execution path of a command: if every `remove_directory(p)` on the path comes
+    after a successful `create_directory(p)` (or a `mkstemp(p)` that showed the name to be free) of
+    the same path, then — whatever the path names stand for, whatever the run records into the
+    directories it made, whatever fails — every directory or file that was foreign when the command
+    started holds exactly what it held. -/
+theorem c20_guarded_trace_foreign_untouched (ρ : String → String) (filled : String → Ents) (e : Env) (fs0 : Ents)
+    (tr : List DEv) (st' : Env × Ents) (hg : guarded tr = true)
+    (hs : execTrace ρ filled (e, fs0) tr = some st') :
+    ∀ x, Foreign fs0 x → st'.2.get x = fs0.get x :=
+  guarded_trace_inv ρ filled fs0 tr [] (e, fs0) st' (fun _ _ => rfl) (fun _ h => by simp at h) hg hs
+
+open Uft.Gen.DirCallers in
+/-- The proof obligation on the code: every execution path of every command that can reach
+    `create_directory` / `remove_directory` / `mkstemp` (the list is regenerated from cmds/*.c on
+    every run) is guarded.  A new `remove_directory(p)` that is not dominated by a successful
+    `create_directory(p)` of the same path makes this fail. -/
+theorem c20_every_entry_point_guards : ∀ ep ∈ entryPoints, ep.guards = true := by
+  decide
+
+open Uft.Gen.DirCallers in
+/-- … hence C20's "any other existing directory or file is left untouched" for every command -/
+theorem c20_entry_points_foreign_untouched (ep : EntryPoint) (hep : ep ∈ entryPoints) (tr : List DEv)
+    (htr : tr ∈ ep.traces) (ρ : String → String) (filled : String → Ents) (e : Env) (fs0 : Ents)
+    (st' : Env × Ents) (hs : execTrace ρ filled (e, fs0) tr = some st') :
+    ∀ x, Foreign fs0 x → st'.2.get x = fs0.get x := by
+  have h := c20_every_entry_point_guards ep hep
+  simp only [EntryPoint.guards, List.all_eq_true] at h
+  exact c20_guarded_trace_foreign_untouched ρ filled e fs0 tr st' (h tr htr) hs
+
+open Uft.Gen.DirCallers in
+/-- the commands the end-to-end part of the check drives against pre-populated directories are
+    exactly the ones that can create or remove a data directory -/
+theorem c20_entry_points_covered_by_e2e :
+    entryPoints.map (·.name) = ["command_live", "command_record", "command_recv", "command_script"] := by
+  decide
+
+/-- the unlink/rmdir/rename/remove/system/nftw calls of cmds/*.c that have been looked at: the
+    template file of live mode (`mkstemp` made it) and the FIFO inside the directory that
+    `create_directory` has just made -/
+def knownRaw : List (String × String × String) :=
+  [("command_live", "unlink", "tmp_dirname"), ("command_record", "unlink", "channel")]
+
+open Uft.Gen.DirCallers in
+theorem c20_raw_calls_known : ∀ c ∈ rawCalls, c ∈ knownRaw := by decide
+
+open Uft.Gen.DirCallers in
+/-- nothing outside cmds/*.c (unit tests aside) creates or removes data directories -/
+theorem c20_no_callers_outside_cmds : otherCallers = [] := by decide
+
+/-- why the guard is needed (non-vacuity of `guarded`): the path "create_directory failed, clean
+    up" is not guarded, it can happen on the user's directory of `fsUser`, and it deletes it -/
+theorem c20_unguarded_remove_witness :
+    guarded [.createFail "d", .remove "d"] = false ∧
+    Foreign fsUser "DIR" ∧
+    (match execTrace (fun _ => "DIR") (fun _ => .nil) (NoFaults, fsUser) [.createFail "d", .remove "d"] with
+     | some st => (st.2.get "DIR").isNone
+     | none => false) = true := by
+  decide
+
+/-- non-vacuity of `c20_guarded_trace_foreign_untouched`: a guarded path (live mode: fresh name,
+    create, record, remove) that does happen next to the user's directory -/
+example :
+    guarded [.fresh "t", .createOk "t", .remove "t"] = true ∧
+    (match execTrace (fun _ => "tmp") (fun _ => .cons "info" (.file magic) .nil) (NoFaults, fsUser)
+        [.fresh "t", .createOk "t", .remove "t"] with
+     | some st => Ents.beq st.2 fsUser
+     | none => false) = true := by
+  decide
 
 end Uft.DirGuard
